@@ -37,6 +37,7 @@ import (
 	"fmt"
 	"os"
 	"os/exec"
+	"regexp"
 	"strconv"
 	"strings"
 	"syscall"
@@ -47,6 +48,8 @@ import (
 
 	"github.com/mgtv-tech/redis-GunYu/config"
 	"github.com/mgtv-tech/redis-GunYu/pkg/rdb"
+	"github.com/mgtv-tech/redis-GunYu/pkg/redis/client"
+	"github.com/mgtv-tech/redis-GunYu/pkg/redis/client/conn"
 	usync "github.com/mgtv-tech/redis-GunYu/pkg/sync"
 	"github.com/mgtv-tech/redis-GunYu/pkg/util"
 	"github.com/mgtv-tech/redis-GunYu/pkg/vfc20"
@@ -146,6 +149,18 @@ func vfC04ParseTok(f []byte) string {
 // TestVerifC04Child parses one file in a process of its own (inputs whose
 // length fields ask for absurd allocations).
 func TestVerifC04Child(t *testing.T) {
+	if pf := os.Getenv("VERIF_C04_PBATCH"); pf != "" {
+		b, err := os.ReadFile(pf)
+		if err != nil {
+			t.Fatal(err)
+		}
+		for i, l := range strings.Split(strings.TrimSpace(string(b)), "\n") {
+			fmt.Printf("C04P %d %s\n", i, vfC04ParseTok(vfutil.UnHex(l)))
+			os.Stdout.Sync()
+		}
+		fmt.Printf("C04P done\n")
+		return
+	}
 	if bf := os.Getenv("VERIF_C04_BATCH"); bf != "" {
 		vfC04ChildBatch(t, bf)
 		return
@@ -155,6 +170,53 @@ func TestVerifC04Child(t *testing.T) {
 		t.Skip("child mode only")
 	}
 	fmt.Printf("C04CHILD %s\n", vfC04ParseTok(vfutil.UnHex(h)))
+}
+
+// vfC04ParseCanary parses the inputs in ONE child process first. A parser that
+// lets a panic escape kills the whole process (usync.SafeGo with a nil handler):
+// the canary turns that into a violation with the input instead of a dead harness.
+// Returns the index the child died at (-1: it survived) and how.
+func vfC04ParseCanary(inputs [][]byte) (int, string, []string) {
+	f, err := os.CreateTemp("", "vfc04canary*.txt")
+	if err != nil {
+		panic(err)
+	}
+	defer os.Remove(f.Name())
+	for _, in := range inputs {
+		f.WriteString(vfutil.Hex(in) + "\n")
+	}
+	f.Close()
+	ctx, cancel := context.WithTimeout(context.Background(), 120*time.Second)
+	defer cancel()
+	cmd := exec.CommandContext(ctx, os.Args[0], "-test.run", "^TestVerifC04Child$", "-test.count", "1")
+	cmd.Env = append(os.Environ(), "VERIF_C04_PBATCH="+f.Name(), "VERIF_OUT="+os.TempDir(), "GOMEMLIMIT=1GiB")
+	out, _ := cmd.CombinedOutput()
+	var toks []string
+	done := false
+	for _, l := range strings.Split(string(out), "\n") {
+		if l == "C04P done" {
+			done = true
+		} else if strings.HasPrefix(l, "C04P ") {
+			p := strings.Fields(l)
+			if len(p) == 3 {
+				toks = append(toks, p[2])
+			}
+		}
+	}
+	if done {
+		return -1, "", toks
+	}
+	how := "crash"
+	if ctx.Err() != nil {
+		how = "hang"
+	} else if strings.Contains(string(out), "out of memory") {
+		how = "oom"
+	}
+	tail := string(out)
+	if len(tail) > 600 {
+		tail = tail[len(tail)-600:]
+	}
+	return len(toks), how + ": " + tail, toks
 }
 
 // ---------------------------------------------------------------- supervised batches
@@ -296,6 +358,26 @@ func vfC04RunBatch(s *vfutil.Session, cases []vfC04BatchCase, mark func(string))
 	return out
 }
 
+// vfC04Fixtures: the complete RDB files (hex literals, produced by real Redis
+// servers 4.0 … 7.2) embedded in /repo/pkg/rdb/loader_test.go.
+func vfC04Fixtures() [][]byte {
+	b, err := os.ReadFile("../pkg/rdb/loader_test.go")
+	if err != nil {
+		return nil
+	}
+	re := regexp.MustCompile("5245444953[0-9a-f]{60,}")
+	seen := map[string]bool{}
+	var out [][]byte
+	for _, h := range re.FindAllString(string(b), -1) {
+		if len(h)%2 != 0 || seen[h] {
+			continue
+		}
+		seen[h] = true
+		out = append(out, vfutil.UnHex(h))
+	}
+	return out
+}
+
 // vfC04StreamFile: a snapshot whose middle key is a stream (listpack value).
 func vfC04StreamFile() vfC04File {
 	return vfC04File{Name: "stream", KVs: []vfc20.KV{
@@ -345,6 +427,12 @@ type vfC04Opts struct {
 	CancelAt int // cancel when request #CancelAt (after the seeds) arrives (-1: none)
 	HoldAt   int // hold request #HoldAt, wait for quiescence, cancel, release (-1: none)
 	Cancel0  bool
+	// added after the review
+	FailFrom  int    `json:",omitempty"` // > 0: FailFrom-1 = first request of a PERSISTENT failure (every later request fails too)
+	FailInner int    `json:",omitempty"` // > 0: FailInner-1 = index of a command queued in MULTI that fails inside the EXEC reply
+	NoCancel  bool   `json:",omitempty"` // HoldAt: release without cancelling
+	Cluster   bool   `json:",omitempty"` // bidirectional replay onto a CLUSTER target (global lane goroutine)
+	Lua       string `json:",omitempty"` // the snapshot carries this script as AUX "lua": SCRIPT LOAD is part of the replay
 }
 
 type vfC04Res struct {
@@ -388,17 +476,42 @@ func vfC04Send(t *testing.T, kvs []vfc20.KV, data []byte, size int64, o vfC04Opt
 		}
 	}()
 	synctest.Test(t, func(t *testing.T) {
+		vfc20.SettleClock()
 		tg := vfdoubles.NewTarget()
 		tg.SetNow(time.Now().UnixMilli())
 		c := &vfc20.Case{Mode: "wplain", Pol: "replace", Restore: o.Restore, MaxBulk: 1 << 29, Ver: "7.0.0"}
 		if o.Bisync {
 			c.Mode = "bisync"
 		}
+		tg.FailExecToo = true // a fault injected at an EXEC request is a fault
+		tg.AcceptScripts = true
 		ro := vfC20Output(c, tg, o.Parallel)
 		ro.cfg.EnableResumeFromBreakPoint = o.Resume
+		if o.Cluster {
+			rcfg := config.RedisConfig{Type: config.RedisTypeCluster, Version: "7.0.0", ClusterOptions: &config.RedisClusterOptions{}}
+			rcfg.SetClusterShards([]*config.RedisClusterShard{
+				{Slots: config.RedisSlots{Ranges: []config.RedisSlotRange{{Left: 0, Right: 8191}}}, Master: config.RedisNode{Address: "10.0.0.1:6379"}},
+				{Slots: config.RedisSlots{Ranges: []config.RedisSlotRange{{Left: 8192, Right: 16383}}}, Master: config.RedisNode{Address: "10.0.0.2:6379"}},
+			})
+			ro.cfg.Redis = rcfg
+			rc := config.RedisConfig{}
+			ro.newRedisConn = func(ctx context.Context) (client.Redis, error) {
+				return conn.VerifNewRedisConn(tg.Dial(), rc), nil
+			}
+			ro.newRedisConnToAddress = func(ctx context.Context, addr string) (client.Redis, error) {
+				return conn.VerifNewRedisConn(tg.Dial(), rc), nil
+			}
+		}
 		ctx, cancel := context.WithCancel(context.Background())
 		defer cancel()
 		nSeed := tg.LogLen()
+		if o.FailFrom > 0 {
+			tg.FailFrom = nSeed + o.FailFrom - 1
+			tg.FailFromMsg = "ERR persistent failure injected by the C04 harness"
+		}
+		if o.FailInner > 0 {
+			tg.FailInner[nSeed+o.FailInner-1] = "ERR injected inside EXEC by the C04 harness"
+		}
 		held := make(chan struct{})
 		release := make(chan struct{})
 		var heldOnce atomic.Bool
@@ -428,8 +541,10 @@ func vfC04Send(t *testing.T, kvs []vfc20.KV, data []byte, size int64, o vfC04Opt
 			select {
 			case <-held:
 				// parser, distributor and the other workers have gone as far as they can
-				cancel()
-				synctest.Wait()
+				if !o.NoCancel {
+					cancel()
+					synctest.Wait()
+				}
 				close(release)
 			default:
 				// the run ended before request #HoldAt
@@ -466,6 +581,104 @@ func vfC04Send(t *testing.T, kvs []vfc20.KV, data []byte, size int64, o vfC04Opt
 		}
 		if o.Bisync && ro.bisyncOffset.Load() == vfC04Left {
 			res.Cp = true // bisync resume position advanced to the snapshot's offset
+		}
+		res.AllApplied = true
+		for _, kv := range kvs {
+			want := vfc20.ExpectVal(kv, o.Restore, vfc20.BubbleNowMs)
+			if !vfc20.SameVal(want, tg.Get(kv.DB, string(kv.Key))) {
+				res.AllApplied = false
+				res.Missing = append(res.Missing, string(kv.Key))
+			}
+		}
+		if o.Lua != "" {
+			// the script of the AUX "lua" field is an entry of the snapshot too
+			loaded := false
+			for i, e := range log {
+				if e.Cmd() == "script" && len(e.Args) == 3 && string(e.Args[2]) == o.Lua {
+					failedReq := (o.FailAt >= 0 && i == o.FailAt) || (o.FailFrom > 0 && i >= o.FailFrom-1)
+					if !failedReq {
+						loaded = true
+					}
+				}
+			}
+			if !loaded {
+				res.AllApplied = false
+				res.Missing = append(res.Missing, "<lua script>")
+			}
+		}
+		finished = true
+	})
+	return
+}
+
+// vfC04SendCached: the snapshot reaches SendRdb the way it does in production —
+// from the disk cache: StoreChannel → store.Storer.GetReader → store.RdbReader
+// (pump: file → pipe) → store.Reader.Start. The cache file is named
+// <left>_<size>.rdb (a FINISHED snapshot of `size` bytes) and holds `data`.
+func vfC04SendCached(t *testing.T, kvs []vfc20.KV, data []byte, size int64, o vfC04Opts) (res vfC04Res) {
+	dir, err := os.MkdirTemp("", "vfc04cache")
+	if err != nil {
+		panic(err)
+	}
+	defer os.RemoveAll(dir)
+	os.MkdirAll(dir+"/vfrun", 0o777)
+	if err := os.WriteFile(fmt.Sprintf("%s/vfrun/%d_%d.rdb", dir, vfC04Left, size), data, 0o666); err != nil {
+		panic(err)
+	}
+	finished := false
+	defer func() {
+		if r := recover(); r != nil {
+			msg := fmt.Sprint(r)
+			if finished && strings.Contains(msg, "blocked goroutines remain") {
+				res.Leak = true
+				return
+			}
+			res.Hang = msg
+		}
+	}()
+	synctest.Test(t, func(t *testing.T) {
+		vfc20.SettleClock()
+		tg := vfdoubles.NewTarget()
+		tg.SetNow(time.Now().UnixMilli())
+		c := &vfc20.Case{Mode: "wplain", Pol: "replace", Restore: o.Restore, MaxBulk: 1 << 29, Ver: "7.0.0"}
+		ro := vfC20Output(c, tg, o.Parallel)
+		ro.cfg.EnableResumeFromBreakPoint = o.Resume
+		ch := NewStoreChannel(StorerConf{InputId: "vf", Dir: dir, MaxSize: 1 << 30, LogSize: 1 << 20}).(*StoreChannel)
+		defer ch.Close()
+		if err := ch.SetRunId("vfrun"); err != nil {
+			res.Err = err
+			finished = true
+			return
+		}
+		rd, err := ch.storer.GetReader(vfC04Left, false)
+		if err != nil {
+			res.Err = fmt.Errorf("GetReader: %w", err)
+			finished = true
+			return
+		}
+		wait := usync.NewWaitCloser(nil)
+		ctx, cancel := context.WithCancel(context.Background())
+		defer cancel()
+		rd.Start(wait)
+		done := make(chan error, 1)
+		go func() { done <- ro.SendRdb(ctx, rd) }()
+		select {
+		case res.Err = <-done:
+		case <-time.After(10 * time.Minute): // virtual time
+			res.Hang = "SendRdb had not returned after 10 minutes (virtual) reading a finished cache file"
+			wait.Close(nil)
+			cancel()
+			<-done
+		}
+		wait.Close(nil)
+		rd.Close()
+		ch.Close()
+		synctest.Wait()
+		tg.CloseAll()
+		for _, e := range tg.LogCopy() {
+			if e.Cmd() == "hset" && len(e.Args) > 2 && string(e.Args[1]) == "vfcp" {
+				res.Cp = true
+			}
 		}
 		res.AllApplied = true
 		for _, kv := range kvs {
@@ -608,6 +821,25 @@ func TestVerifC04(t *testing.T) {
 				tok = "u"
 			}
 			s.Op(fmt.Sprintf("c04parse %d %s", maxVer, parts[1]), tok)
+		case "cached": // cached <file name> <bytes held>: finished cache file <left>_<size>.rdb holding only a prefix, through store.RdbReader
+			p3 := strings.Fields(l)
+			k, _ := strconv.Atoi(p3[2])
+			for _, f := range files {
+				if f.Name == p3[1] {
+					data := f.bytes()
+					o := vfC04DefaultOpts()
+					mark("corpus " + l)
+					r := vfC04SendCached(t, f.KVs, data[:k], int64(len(data)), o)
+					if r.Hang != "" {
+						s.Count("viol_hang")
+						s.Violate("hang", fmt.Sprintf("finished cache file holds %d of %d bytes: %s", k, len(data), r.Hang),
+							map[string]interface{}{"scenario": "send-cached-short-file", "file": f.Name, "held": k, "size": len(data)})
+					} else {
+						vfC04Monitor(s, "send-cached", f.Name, data[:k], o, r)
+					}
+					s.Count("case_corpus")
+				}
+			}
 		case "sendchild": // sendchild <file name|foreign> <hexdata> <opts-json>: as "send", in a supervised child (hang / oom witnesses)
 			p4 := strings.SplitN(l, " ", 4)
 			var o vfC04Opts
@@ -651,6 +883,43 @@ func TestVerifC04(t *testing.T) {
 		}
 	}
 
+	// ------------------------------------------------ 0. canary: the first file's truncations in a child process
+	{
+		data := files[0].bytes()
+		var ins [][]byte
+		for k := 0; k <= len(data); k++ {
+			ins = append(ins, data[:k])
+		}
+		for pos := 9; pos < len(data); pos += 3 {
+			g := append([]byte(nil), data...)
+			g[pos] ^= 0x55
+			if _, risky := vfc20.Classify(g); !risky {
+				ins = append(ins, g)
+			}
+		}
+		mark("canary")
+		at, how, toks := vfC04ParseCanary(ins)
+		s.Count("canary_inputs")
+		for i, tk := range toks {
+			if strings.HasPrefix(tk, "x") {
+				s.Count("viol_parser-no-terminal")
+				s.Violate("parser-no-terminal", "rdb.ParseRdb closed its channel without a Done or Err entry ("+tk+"): sendRdb's distributor takes that for a normal end",
+					map[string]interface{}{"scenario": "canary-parse", "rdb": vfutil.Hex(ins[i])})
+				break
+			}
+		}
+		if at >= 0 {
+			s.Count("viol_crash")
+			in := []byte{}
+			if at < len(ins) {
+				in = ins[at]
+			}
+			s.Violate("crash", "damaged snapshot: the parser does not return an error, the PROCESS dies: "+how,
+				map[string]interface{}{"scenario": "canary-parse", "rdb": vfutil.Hex(in)})
+			return // every in-process sweep below would kill the harness itself
+		}
+	}
+
 	// ------------------------------------------------ 1. real parser vs frame model: truncations and every XOR mask
 	sweepFiles := append([]vfC04File{}, files...)
 	sweepFiles = append(sweepFiles, vfC04OomBait())
@@ -667,6 +936,11 @@ func TestVerifC04(t *testing.T) {
 			mark(fmt.Sprintf("trunc %s %d", f.Name, k))
 			sup, risky := vfc20.Classify(data[:k])
 			tok := vfC04ParseGuarded(s, data[:k], risky)
+			if strings.HasPrefix(tok, "x") {
+				s.Count("viol_parser-no-terminal")
+				s.Violate("parser-no-terminal", "rdb.ParseRdb closed its channel without a Done or Err entry ("+tok+")",
+					map[string]interface{}{"scenario": "trunc", "file": f.Name, "rdb": vfutil.Hex(data[:k])})
+			}
 			if k < len(data) && strings.HasPrefix(tok, "d") {
 				s.Count("viol_truncation-accepted")
 				s.Violate("truncation-accepted", fmt.Sprintf("%s cut at %d of %d bytes parses to Done (%s)", f.Name, k, len(data), tok),
@@ -762,6 +1036,34 @@ func TestVerifC04(t *testing.T) {
 		}
 	}
 
+	// ------------------------------------------------ 2a. through the real disk-cache reader (store.RdbReader.pump)
+	for fi, f := range files {
+		data := f.bytes()
+		step := vfutil.Scale(11, 1)
+		ks := []int{0, 5, 9, len(data) - 9, len(data) - 8, len(data) - 1, len(data)}
+		for k := 1 + fi; k < len(data); k += step {
+			ks = append(ks, k)
+		}
+		for _, k := range ks {
+			o := vfC04DefaultOpts()
+			o.Parallel = 1 + k%3
+			o.Restore = k%2 == 0
+			mark(fmt.Sprintf("send-cached %s %d", f.Name, k))
+			r := vfC04SendCached(t, f.KVs, data[:k], int64(len(data)), o)
+			if r.Hang != "" {
+				s.Count("viol_hang")
+				s.Violate("hang", fmt.Sprintf("finished cache file %d_%d.rdb holds %d bytes: %s", vfC04Left, len(data), k, r.Hang),
+					map[string]interface{}{"scenario": "send-cached-short-file", "file": f.Name, "held": k, "size": len(data), "rdb": vfutil.Hex(data[:k])})
+			} else {
+				vfC04Monitor(s, "send-cached", f.Name, data[:k], o, r)
+				if k == len(data) && (r.Err != nil || !r.AllApplied) {
+					s.Violate("clean-run-failed", fmt.Sprintf("intact cache file: err=%v all=%v", r.Err, r.AllApplied), map[string]interface{}{"file": f.Name})
+				}
+			}
+			s.Count("send_cached_reader")
+		}
+	}
+
 	// ------------------------------------------------ 2b. a stream value: decoders run in the workers, supervised child
 	{
 		f := vfC04StreamFile()
@@ -827,74 +1129,194 @@ func TestVerifC04(t *testing.T) {
 		}
 	}
 
+	// ------------------------------------------------ 2c. Redis-produced snapshots of the repo's own tests: ziplist / listpack /
+	// intset / quicklist containers, LZF strings, functions, streams with groups. Expansion path (the value decoders run in
+	// the replay workers, before the checksum is reached), supervised child. The dataset is not known to the monitor:
+	// it checks "no hang / oom / crash" and "damaged ⇒ SendRdb returns an error".
+	{
+		fixtures := vfC04Fixtures()
+		s.Add("fixture_files", len(fixtures))
+		var cases []vfC04BatchCase
+		var damaged []bool
+		oi := 0
+		add := func(g []byte, size int, dmg bool) {
+			o := vfC04DefaultOpts()
+			o.Parallel = 1 + oi%3
+			o.Bisync = oi%5 == 4
+			o.Restore = false
+			oi++
+			cases = append(cases, vfC04BatchCase{File: "foreign", Data: vfutil.Hex(g), Size: int64(size), Opts: o})
+			damaged = append(damaged, dmg)
+		}
+		for _, data := range fixtures {
+			if len(data) > vfutil.Scale(700, 4000) {
+				continue
+			}
+			add(data, len(data), false)
+			tstep, pstep := vfutil.Scale(7, 1), vfutil.Scale(5, 1)
+			masks := []int{0x01, 0xF5}
+			if vfutil.Thorough() {
+				masks = []int{0x01, 0x04, 0x10, 0x80, 0xFF, 0xF5, 0x7F}
+			}
+			for k := 0; k < len(data); k += tstep {
+				add(data[:k], len(data), true)
+			}
+			// a snapshot written with the checksum disabled (all-zero footer) cannot refuse an alteration
+			checksummed := !bytes.Equal(data[len(data)-8:], make([]byte, 8))
+			for pos := 9; pos < len(data)-8; pos += pstep {
+				for _, m := range masks {
+					g := append([]byte(nil), data...)
+					g[pos] ^= byte(m)
+					add(g, len(data), checksummed)
+				}
+			}
+		}
+		mark("fixture batch")
+		for i, r := range vfC04RunBatch(s, cases, mark) {
+			c := cases[i]
+			rp := map[string]interface{}{"scenario": "send-fixture", "file": "foreign", "rdb": c.Data, "opts": c.Opts.String()}
+			s.Count("send_fixture_cases")
+			if r.Died != "" {
+				s.Count("viol_" + r.Died)
+				s.Violate(r.Died, "damaged Redis-produced snapshot: the replay does not return an error, the process "+r.Died+"s", rp)
+				continue
+			}
+			if damaged[i] && !r.Err {
+				s.Count("viol_damaged-reported-ok")
+				s.Violate("damaged-reported-ok", "a truncated / altered (checksum-covered byte) snapshot was replayed with SendRdb returning nil", rp)
+			}
+			if !damaged[i] && r.Err {
+				s.Count("fixture_intact_not_replayable_on_the_double")
+			}
+		}
+	}
+
 	// ------------------------------------------------ 3. faults and cancellation at every point, all worker counts
 	reps := vfutil.Scale(2, 6)
-	for fi, f := range files[:2] {
-		data := f.bytes()
+	luaFile := vfC04File{Name: "luaaux", Opts: vfc20.Opts{Aux: true, Lua: []byte("return 1")}, KVs: []vfc20.KV{
+		{DB: 0, Key: []byte("k"), Type: 0, Str: []byte("v")},
+		{DB: 0, Key: []byte("l"), Type: 1, Items: [][]byte{[]byte("a")}},
+	}}
+	type scen struct {
+		f       vfC04File
+		par, ps int
+		bis     bool
+		cluster bool
+	}
+	var scens []scen
+	for _, f := range files[:2] {
 		for par := 1; par <= 4; par++ {
 			for _, ps := range []int{1024, par, 1} {
 				for _, bis := range []bool{false, true} {
 					if vfutil.Tier() == "quick" && ps == par && bis {
 						continue
 					}
-					o := vfC04DefaultOpts()
-					o.Parallel, o.PipeSize, o.Bisync = par, ps, bis
-					o.Restore = (fi+par)%2 == 0
-					mark("clean " + o.String())
-					clean := vfC04Send(t, f.KVs, data, int64(len(data)), o)
-					vfC04Monitor(s, "clean", f.Name, data, o, clean)
-					s.Op(vfC04FanOp(data, o, "clean"), vfC04ResTok(clean))
-					if clean.Err != nil || !clean.Cp || !clean.AllApplied {
-						s.Violate("clean-run-failed", fmt.Sprintf("intact snapshot: err=%v cp=%v all=%v", clean.Err, clean.Cp, clean.AllApplied),
-							map[string]interface{}{"file": f.Name, "opts": o.String()})
-						continue
-					}
-					s.Count("fan_clean")
-					nData := clean.NReq - 1 // the last request is the checkpoint HSET (its own connection)
-					// cancelled before the start
-					oc := o
-					oc.Cancel0 = true
-					mark("cancel0 " + oc.String())
-					r := vfC04Send(t, f.KVs, data, int64(len(data)), oc)
-					vfC04Monitor(s, "cancel-before-start", f.Name, data, oc, r)
-					s.Op(vfC04FanOp(data, o, "cancel0"), vfC04ResTok(r))
-					for k := 0; k < nData; k++ {
-						// target error at request k
-						of := o
-						of.FailAt = k
-						mark("fail " + of.String())
-						r := vfC04Send(t, f.KVs, data, int64(len(data)), of)
-						vfC04Monitor(s, "target-error", f.Name, data, of, r)
-						if r.FailCmd == "exec" {
-							// the double executes EXEC regardless of FailAt: no fault was injected
-							s.Count("fan_fail_on_exec_not_injectable")
-						} else {
-							s.Op(vfC04FanOp(data, o, fmt.Sprintf("fail:%d", k)), vfC04ResTok(r))
-							s.Count("fan_fail")
-						}
-						// cancel at request k
-						oc := o
-						oc.CancelAt = k
-						mark("cancelAt " + oc.String())
-						r = vfC04Send(t, f.KVs, data, int64(len(data)), oc)
-						vfC04Monitor(s, "cancel-at-request", f.Name, data, oc, r)
-						s.Count("fan_cancel_at")
-						// the D6 window: hold request k, let everything else finish, cancel, release
-						for rep := 0; rep < reps; rep++ {
-							oh := o
-							oh.HoldAt = k
-							mark("hold " + oh.String())
-							r = vfC04Send(t, f.KVs, data, int64(len(data)), oh)
-							vfC04Monitor(s, "cancel-while-worker-holds-queue", f.Name, data, oh, r)
-							if rep == 0 {
-								s.Op(vfC04FanOp(data, o, fmt.Sprintf("hold:%d:0", k%par)), vfC04ResTok(r))
-							}
-							s.Count("fan_hold_cancel")
-						}
-						s.Distinct(fmt.Sprintf("fan/%s/%d/%d/%v/%d", f.Name, par, ps, bis, k))
-					}
+					scens = append(scens, scen{f, par, ps, bis, false})
 				}
 			}
+		}
+	}
+	scens = append(scens, scen{luaFile, 1, 1024, false, false}, scen{luaFile, 2, 1, false, false})
+	// bidirectional replay onto a CLUSTER target: one more result-sending goroutine (global lane)
+	scens = append(scens, scen{files[0], 1, 1024, true, true}, scen{files[0], 2, 1024, true, true}, scen{luaFile, 3, 2, true, true})
+	for si, sc := range scens {
+		f, par, ps, bis := sc.f, sc.par, sc.ps, sc.bis
+		data := f.bytes()
+		o := vfC04DefaultOpts()
+		o.Parallel, o.PipeSize, o.Bisync, o.Cluster = par, ps, bis, sc.cluster
+		o.Restore = si%2 == 0
+		o.Resume = si%3 != 1 // in-memory checkpoint in a third of the scenarios
+		o.Lua = string(f.Opts.Lua)
+		tie := !sc.cluster // the Lean event system has no global lane
+		mark("clean " + o.String())
+		clean := vfC04Send(t, f.KVs, data, int64(len(data)), o)
+		vfC04Monitor(s, "clean", f.Name, data, o, clean)
+		if tie {
+			s.Op(vfC04FanOp(data, o, "clean"), vfC04ResTok(clean))
+		}
+		if clean.Err != nil || !clean.Cp || !clean.AllApplied {
+			s.Violate("clean-run-failed", fmt.Sprintf("intact snapshot: err=%v cp=%v all=%v missing=%q", clean.Err, clean.Cp, clean.AllApplied, clean.Missing),
+				map[string]interface{}{"scenario": "clean", "file": f.Name, "rdb": vfutil.Hex(data), "opts": o.String()})
+			continue
+		}
+		s.Count("fan_clean")
+		nData := clean.NReq
+		if o.Resume {
+			nData-- // the last request is the checkpoint HSET (its own connection)
+		}
+		oc := o
+		oc.Cancel0 = true
+		mark("cancel0 " + oc.String())
+		r := vfC04Send(t, f.KVs, data, int64(len(data)), oc)
+		vfC04Monitor(s, "cancel-before-start", f.Name, data, oc, r)
+		if tie {
+			s.Op(vfC04FanOp(data, o, "cancel0"), vfC04ResTok(r))
+		}
+		for k := 0; k < nData; k++ {
+			// target error at request k (single shot; EXEC included)
+			of := o
+			of.FailAt = k
+			mark("fail " + of.String())
+			r := vfC04Send(t, f.KVs, data, int64(len(data)), of)
+			vfC04Monitor(s, "target-error", f.Name, data, of, r)
+			if tie {
+				s.Op(vfC04FanOp(data, o, fmt.Sprintf("fail:%d", k)), vfC04ResTok(r))
+			}
+			s.Count("fan_fail")
+			// the target fails from request k on, for good
+			op := o
+			op.FailFrom = k + 1
+			mark("failFrom " + op.String())
+			r = vfC04Send(t, f.KVs, data, int64(len(data)), op)
+			vfC04Monitor(s, "target-error-persistent", f.Name, data, op, r)
+			if r.Err == nil {
+				s.Count("viol_persistent-failure-reported-ok")
+				s.Violate("persistent-failure-reported-ok", fmt.Sprintf("every request from #%d on failed, SendRdb returned nil", k),
+					map[string]interface{}{"scenario": "target-error-persistent", "file": f.Name, "rdb": vfutil.Hex(data), "opts": op.String()})
+			}
+			s.Count("fan_fail_persistent")
+			if bis {
+				// a command failing at execution time, inside the EXEC reply
+				oi := o
+				oi.FailInner = k + 1
+				mark("failInner " + oi.String())
+				r = vfC04Send(t, f.KVs, data, int64(len(data)), oi)
+				vfC04Monitor(s, "target-error-inside-exec", f.Name, data, oi, r)
+				s.Count("fan_fail_inner")
+			}
+			if vfutil.Thorough() || k%2 == 0 {
+				oc := o
+				oc.CancelAt = k
+				mark("cancelAt " + oc.String())
+				r = vfC04Send(t, f.KVs, data, int64(len(data)), oc)
+				vfC04Monitor(s, "cancel-at-request", f.Name, data, oc, r)
+				s.Count("fan_cancel_at")
+			}
+			// the D6 window: hold request k, let everything else finish, cancel, release
+			for rep := 0; rep < reps; rep++ {
+				oh := o
+				oh.HoldAt = k
+				mark("hold " + oh.String())
+				r = vfC04Send(t, f.KVs, data, int64(len(data)), oh)
+				vfC04Monitor(s, "cancel-while-worker-holds-queue", f.Name, data, oh, r)
+				if rep == 0 && tie {
+					s.Op(vfC04FanOp(data, o, fmt.Sprintf("hold:%d:0", k%par)), vfC04ResTok(r))
+				}
+				s.Count("fan_hold_cancel")
+			}
+			// the same hold WITHOUT cancellation: the slow worker must be waited for
+			oh := o
+			oh.HoldAt, oh.NoCancel = k, true
+			mark("holdNoCancel " + oh.String())
+			r = vfC04Send(t, f.KVs, data, int64(len(data)), oh)
+			vfC04Monitor(s, "slow-worker", f.Name, data, oh, r)
+			if r.Err != nil || !r.AllApplied {
+				s.Count("viol_slow-worker-not-awaited")
+				s.Violate("slow-worker-not-awaited", fmt.Sprintf("a worker held inside request #%d and released: err=%v all=%v missing=%q", k, r.Err, r.AllApplied, r.Missing),
+					map[string]interface{}{"scenario": "slow-worker", "file": f.Name, "rdb": vfutil.Hex(data), "opts": oh.String()})
+			}
+			s.Count("fan_hold_nocancel")
+			s.Distinct(fmt.Sprintf("fan/%s/%d/%d/%v/%v/%d", f.Name, par, ps, bis, sc.cluster, k))
 		}
 	}
 
